@@ -16,7 +16,8 @@ RULE = ('Generated histories of 1..6 snapshots with injected distinct timestamps
         'from the printed names (full, prefix, infix, suffix, alternation, non-matching, several -S values) and file '
         'regexes from a small grammar (or none); all column subsets/orders. Oracle: selection model (newest selected '
         'snapshot containing the path wins) for restore result and tree; listings parsed on TABs: exact row set, newest '
-        'first, true counts/digests/times (independent reader), humanised sizes within half a unit of the last digit; '
+        'first, true counts/digests/times (independent reader), humanised sizes within half a unit of the last digit, the header '
+        'line labels the columns in the order of the cells; '
         'every printed name deletes exactly that snapshot and ^name$ selects exactly it; an unknown name makes delete '
         'raise without changing anything. Non-trivial: a path present in >=2 selected snapshots with different bytes '
         'and a timestamp order different from creation order.')
@@ -76,6 +77,17 @@ def cases(draw):
 
 def strategy(tier):
     return cases()
+
+
+def _header_mismatch(line, cols, labels, enum):
+    """The header line carries one label per selected column, over that column's cells (labels: the public label table)."""
+    if not labels:
+        return None
+    got = [c.strip() for c in line.split('\t')]
+    want = [str(labels[enum(c)]).upper() for c in cols]
+    if got != want:
+        return f'header is {got}, the rows are in the order {want}'
+    return None
 
 
 def _ts(t):
@@ -141,6 +153,7 @@ def run_case(case):
 def _run(case, work):
     from replicat.__main__ import _combine_optional_regexes
     from replicat.utils import FileListColumn, SnapshotListColumn
+    from replicat.repository import Repository
     s = case['settings']
     enc = s.get('encryption') is not None
     classes = ['encrypted' if enc else 'unencrypted']
@@ -245,6 +258,9 @@ def _run(case, work):
             if lines and lines[-1] == '':
                 lines.pop()
             if q['header'] and selected:
+                bad = _header_mismatch(lines[0] if lines else '', cols, getattr(Repository, 'SNAPSHOT_LIST_COLUMN_LABELS', None), SnapshotListColumn)
+                if bad:
+                    return Outcome(fail('list-header', f'list_snapshots(columns={cols}): {bad}'), classes, nontrivial)
                 lines = lines[1:]
             rows = [[c.rstrip() for c in ln.split('\t')] for ln in lines]
             if len(rows) != len(selected):
@@ -296,6 +312,9 @@ def _run(case, work):
             if lines and lines[-1] == '':
                 lines.pop()
             if q['header'] and any(exp_rows):
+                bad = _header_mismatch(lines[0] if lines else '', cols, getattr(Repository, 'FILE_LIST_COLUMN_LABELS', None), FileListColumn)
+                if bad:
+                    return Outcome(fail('list-header', f'list_files(columns={cols}): {bad}'), classes, nontrivial)
                 lines = lines[1:]
             rows = [[c.rstrip() for c in ln.split('\t')] for ln in lines]
             flat = [r for g in exp_rows for r in g]
